@@ -144,3 +144,23 @@ def bridge_in_order(rects):
                 if rects_overlap(rects[l], rects[i]) and rects_overlap(rects[l], rects[j]):
                     return True
     return False
+
+
+# ---------------------------------------------------------------------------------------------------
+# how an object handed to lentil came about: as constructed, or as an equal duplicate
+
+OBJ_VARIANTS = ["constructed", "constructed", "copy", "deepcopy", "pickle"]
+
+
+def derive_obj(obj, selector):
+    """obj itself, obj.copy(), copy.deepcopy(obj) or a pickle round trip, chosen by an integer already in the case"""
+    import copy
+    import pickle
+    v = OBJ_VARIANTS[int(selector) % len(OBJ_VARIANTS)]
+    if v == "copy" and hasattr(obj, "copy"):
+        return obj.copy(), v
+    if v == "deepcopy":
+        return copy.deepcopy(obj), v
+    if v == "pickle":
+        return pickle.loads(pickle.dumps(obj)), v
+    return obj, "constructed"
